@@ -87,6 +87,7 @@ class Source:
         self.repo = repo
         self.classes = {}
         self.sha = {}
+        self.module_consts = {}
         for cname, rel in FILES.items():
             path = os.path.join(repo, rel)
             text = open(path).read()
@@ -96,6 +97,13 @@ class Source:
             if len(found) != 1:
                 raise Unsupported(f"{rel}: class {cname} not found exactly once")
             self.classes[cname] = (found[0], rel)
+            # module-level constants `NAME = <literal>` (used in place of literals)
+            consts = self.module_consts.setdefault(rel, {})
+            for n in tree.body:
+                if isinstance(n, (ast.Assign, ast.AnnAssign)) and getattr(n, "value", None) is not None:
+                    tg = n.targets[0] if isinstance(n, ast.Assign) and len(n.targets) == 1 else getattr(n, "target", None)
+                    if isinstance(tg, ast.Name) and isinstance(n.value, (ast.Constant, ast.UnaryOp)):
+                        consts[tg.id] = n.value
 
     def bases(self, cname):
         node, rel = self.classes[cname]
@@ -202,6 +210,20 @@ class Tr:
     def field_read(self, name, node):
         f = fld(name)
         if f not in FIELD_TYPES:
+            c = self.ctx
+            fn, frel, fcls = c.src.find_method(c.cname, name) if c.src is not None else (None, None, None)
+            if fn is not None and any(ast.unparse(d) == "property" for d in fn.decorator_list) and getattr(self, "prop_depth", 0) < 3:
+                body = [s_ for s_ in fn.body if not (isinstance(s_, ast.Expr) and isinstance(s_.value, ast.Constant))]
+                if len(body) == 1 and isinstance(body[0], ast.Return) and body[0].value is not None:
+                    # a (private) property read inside a method: its single `return <expr>` is inlined; it sees the current state
+                    saved = (c.locals, c.rel)
+                    c.locals, c.rel = {}, frel
+                    self.prop_depth = getattr(self, "prop_depth", 0) + 1
+                    try:
+                        return self.expr(body[0].value)
+                    finally:
+                        self.prop_depth -= 1
+                        c.locals, c.rel = saved
             self.ctx.err(node, f"unknown field {name} (not in the translator schema)")
         if self.in_init:
             if f not in self.ctx.partial_self:
@@ -224,7 +246,21 @@ class Tr:
         if isinstance(e, ast.Name):
             if e.id in c.locals:
                 return c.locals[e.id]
+            mc = getattr(c.src, "module_consts", {}).get(c.rel, {}) if c.src is not None else {}
+            if e.id in mc:
+                return self.expr(mc[e.id])      # a module-level constant stands for its literal
             c.err(e, "unknown name")
+        if isinstance(e, ast.NamedExpr) and isinstance(e.target, ast.Name):
+            # walrus: the value is bound to a local where it is evaluated (hoisted in evaluation order) and is the expression's value
+            v, t = self.expr(e.value)
+            if t == "IntLit":
+                v, t = cast(v, t, "Nat", c, e), "Nat"
+            if t == "FloatLit":
+                v, t = cast(v, t, "K", c, e), "K"
+            ln = c.fresh(e.target.id)
+            self.pre.append(f"let {ln} := {v}")
+            c.locals[e.target.id] = (ln, t)
+            return ln, t
         if isinstance(e, ast.Attribute):
             if isinstance(e.value, ast.Name) and e.value.id == "self":
                 return self.field_read(e.attr, e)
@@ -257,6 +293,11 @@ class Tr:
             return self.call(e)
         if isinstance(e, ast.List) and not e.elts:
             return "[]", "EmptyList"
+        if isinstance(e, ast.ListComp) and ast.unparse(e.elt) in ("np.nan", "np.NaN", "numpy.nan", "float('nan')", "math.nan") \
+                and len(e.generators) == 1 and isinstance(e.generators[0].iter, ast.Call) and ast.unparse(e.generators[0].iter.func) == "range" \
+                and len(e.generators[0].iter.args) == 1 and not e.generators[0].ifs:
+            v, t = self.expr(e.generators[0].iter.args[0])
+            return f"(List.replicate {cast(v, t, 'Nat', c, e)} none)", "LOK"
         if isinstance(e, ast.IfExp):
             tst = e.test
             if isinstance(tst, ast.Compare) and len(tst.ops) == 1 and isinstance(tst.ops[0], (ast.Is, ast.IsNot)) \
@@ -419,6 +460,9 @@ class Tr:
                 return self.draw_idx(cast(v, t, "Nat", c, e))
             v, t = self.expr(hi)
             return self.draw_idx(f"({cast(v, t, 'Nat', c, e)} + 1)")
+        if name in ("np.array", "numpy.array", "np.asarray") and len(args) == 1 and isinstance(args[0], ast.Name) \
+                and c.locals.get(args[0].id, (None, None))[1] == "LOK":
+            return c.locals[args[0].id]
         if name in ("np.array", "numpy.array", "np.asarray") and len(args) == 1 and isinstance(args[0], ast.ListComp):
             lc = args[0]
             if ast.unparse(lc.elt) in ("np.nan", "np.NaN", "numpy.nan", "float('nan')", "math.nan") and len(lc.generators) == 1 \
